@@ -350,13 +350,16 @@ int convert_msa_to_internal(struct msa* msa, int type)
 
         t = a->to_internal;
         msa->L = a->L;
+        /* residues outside the alphabet are treated as the fully ambiguous one */
+        int8_t unknown = (type == ALPHA_defDNA) ? t[(int)'N'] : t[(int)'X'];
         for(i = 0; i <  msa->numseq;i++){
                 seq = msa->sequences[i];
                 for(j =0 ; j < seq->len;j++){
-                        if(t[(int) seq->seq[j]] == -1){
+                        if((unsigned char)seq->seq[j] >= 128 || t[(int) seq->seq[j]] == -1){
                                 WARNING_MSG("there should be no character not matching the alphabet");
                                 WARNING_MSG("offending character: >>>%c<<<", seq->seq[j]);
                                 /* exit(0); */
+                                seq->s[j] = unknown;
                         }else{
                                 seq->s[j] = t[(int) seq->seq[j]];
                         }
